@@ -17,6 +17,7 @@ package main
 import (
 	"fmt"
 	"go/types"
+	"math/big"
 )
 
 type StreamObj struct {
@@ -28,6 +29,8 @@ type StreamObj struct {
 	// blocking: one direction of an in-process connection (verifapi.NewPipe): a read with nothing
 	// pending waits for a write or Close; one message per read (read-ahead is the loop-back stream's subject)
 	blocking bool
+	sizes    []*Term      // symbolic byte length of each message (1..4096), created on demand
+	limiters []*readerWrap // io.LimitReader wrappers decoders read this stream through
 }
 
 func (s *StreamObj) implements(it *types.Interface) bool { return true }
@@ -53,6 +56,8 @@ func (s *StreamObj) invoke(m *Machine, g *Goroutine, method string, args []Value
 
 type jsonEncoder struct{ w Value }
 type jsonDecoder struct {
+	limiters   []*readerWrap // LimitReaders between the decoder and the stream
+	cut        bool          // a limiter ran out: what follows is (unexpected) EOF
 	r          Value
 	buf        []int // indices of complete messages read ahead
 	ownPartial bool  // holds the beginning of the message the stream cursor is inside
@@ -84,6 +89,23 @@ func init() {
 	regV(apiPkg+".NewStream", func(m *Machine, g *Goroutine, a []Value) Value {
 		m.nextID++
 		return IfaceVal{typ: m.ld.ctxMarker, v: &StreamObj{id: m.nextID}}
+	})
+	// StreamHistory(rwc): an arbitrary amount of earlier traffic has already flowed through every
+	// reader that currently wraps this stream
+	regV(apiPkg+".StreamHistory", func(m *Machine, g *Goroutine, a []Value) Value {
+		s := streamOf(a[0])
+		if s == nil {
+			panic(abortf("StreamHistory on something that is not a verifapi stream"))
+		}
+		for _, w := range s.limiters {
+			h := mkVar(m.uniqueName("history"), SInt, big.NewInt(0), nil)
+			m.declare(h)
+			if w.consumed == nil {
+				w.consumed = mkInt(0)
+			}
+			w.consumed = tAdd(w.consumed, h)
+		}
+		return nil
 	})
 	regV(apiPkg+".NewPipe", func(m *Machine, g *Goroutine, a []Value) Value {
 		m.nextID++
@@ -125,6 +147,9 @@ func init() {
 			g.waitFn = nil
 			i := s.pos / 2
 			s.pos += 2
+			if len(d.limiters) > 0 && !m.consumeThrough(d, s, i) {
+				return m.newErrorValue("unexpected EOF"), stNext
+			}
 			return m.jsonStoreInto(s.msgs[i], a[1]), stNext
 		}
 		return streamDecode(m, g, a), stNext
@@ -148,7 +173,13 @@ func streamDecode(m *Machine, g *Goroutine, a []Value) Value {
 			if len(d.buf) > 0 {
 				i := d.buf[0]
 				d.buf = d.buf[1:]
+				if len(d.limiters) > 0 && !m.consumeThrough(d, s, i) {
+					return m.newErrorValue("unexpected EOF")
+				}
 				return m.jsonStoreInto(s.msgs[i], a[1])
+			}
+			if d.cut {
+				return m.newErrorValue("EOF")
 			}
 			end := 2 * len(s.msgs)
 			if s.pos >= end {
@@ -270,4 +301,33 @@ func (m *Machine) jsonStoreInto(src Value, dst Value) Value {
 	}
 	m.store(p, val)
 	return IfaceVal{}
+}
+
+// msgSize: the byte length of message i on the wire, an arbitrary ordinary size.
+func (m *Machine) msgSize(s *StreamObj, i int) *Term {
+	for len(s.sizes) <= i {
+		v := mkVar(m.uniqueName("msgsize"), SInt, big.NewInt(1), big.NewInt(4096))
+		m.declare(v)
+		s.sizes = append(s.sizes, v)
+	}
+	return s.sizes[i]
+}
+
+// consumeThrough accounts message i to every LimitReader of the decoder; false if one of them
+// cannot deliver it completely.
+func (m *Machine) consumeThrough(d *jsonDecoder, s *StreamObj, i int) bool {
+	if d.cut {
+		return false
+	}
+	for _, w := range d.limiters {
+		if w.consumed == nil {
+			w.consumed = mkInt(0)
+		}
+		w.consumed = tAdd(w.consumed, m.msgSize(s, i))
+		if m.branch(tGt(w.consumed, w.limit)) {
+			d.cut = true
+			return false
+		}
+	}
+	return true
 }
